@@ -1263,7 +1263,18 @@ func c16HevcPPS(r *rand.Rand, hostile bool, how int, spsID uint64) ([]byte, *c16
 									maxDiff = s.bits(b)
 								}
 								if nv > 2 && maxDiff > 0 {
-									minDiff = s.bits(c16CeilLog2(maxDiff + 1))
+									// min_diff_minus1: boundary values as well as random ones (0; max_diff - 1, i.e. all
+									// differences equal, no per-value element coded)
+									switch wd := c16CeilLog2(maxDiff + 1); r.Intn(3) {
+									case 0:
+										minDiff = maxDiff - 1
+										s.w.u(wd, minDiff)
+									case 1:
+										minDiff = 0
+										s.w.u(wd, 0)
+									default:
+										minDiff = s.bits(wd)
+									}
 								} else {
 									minDiff = maxDiff - 1
 								}
